@@ -101,3 +101,29 @@ package schedulerplugin
 //@   ensures [C03:never-policy-keeps-dp-ip] policy == 2 ==> StoreDom == old(StoreDom)
 //@   ensures held == old(held)
 //@   modifies map(crd(p).allocatedFIPs), map(crd(p).unallocatedFIPs), floatingip.FloatingIP.Key, floatingip.FloatingIP.Policy, floatingip.FloatingIP.UpdatedAt, floatingip.FloatingIP.NodeName, floatingip.FloatingIP.PodUid, floatingip.FloatingIP.Labels, fresh floatingip.FloatingIP.IP, fresh floatingip.FloatingIP.pool, StoreDom, StoreKey, StorePolicy, StoreNode, StoreUid, faults, fresh mapsof(map[string]string), fresh floatingip.FloatingIPInfo.*, fresh nets.IPNet.*, fresh mapsof(map[string]sets.Empty), fresh elemsof(string), fresh elemsof(*floatingip.FloatingIPInfo), fresh elemsof(byte), fresh elemsof(interface{}), held
+
+// ---- one resync pass (C04, C01, C03, C10) ----
+// The body of the loop of resyncAllocatedIPs (a closure, one checklist entry): if the API server
+// would report the pod of the entry alive with the uid stored for the IP NOW (re-read under the
+// pod lock), nothing changes; otherwise only objects keyed with the entry's key change and only
+// that IP is unassigned at the provider, and only after the unassign was acknowledged is the
+// entry's node/uid cleared or the IP freed.
+//@ func [C04,C01,C03,C10] (*FloatingIPPlugin).resyncAllocatedIPs$1
+//@   let ipS = ipstr(obj.fip.IP)
+//@   let K = obj.keyObj.KeyInDB
+//@   requires obj.keyObj != nil && K != "" && K == obj.fip.Key && key == K
+//@   requires ipamOK(p) && envOK(p) && listersOK(p) && noLocksHeld() && p.podLockPool != p.dpLockPool
+//@   ensures ipamOK(p) && noLocksHeld()
+//@   ensures [C04,C01:resync-keeps-live-pod] old(StoreDom[ipS]) && old(StoreKey[ipS]) == K && obj.keyObj.PodName != "" && obj.keyObj.Namespace != "" && alive(obj.keyObj.Namespace, obj.keyObj.PodName, old(StoreUid[ipS])) ==> storeUnchanged() && ProvNode == old(ProvNode)
+//@   ensures [C04,C01:resync-aborts-on-key-change] !(old(StoreDom[ipS]) && old(StoreKey[ipS]) == K) ==> storeUnchanged() && ProvNode == old(ProvNode)
+//@   ensures [C04,C01:resync-only-own-key] otherKeysUntouched(K)
+//@   ensures [C10:resync-unassigns-only-this-ip] forall k string :: k != ipS ==> ProvNode[k] == old(ProvNode[k])
+//@   modifies map(crd(p).allocatedFIPs), map(crd(p).unallocatedFIPs), floatingip.FloatingIP.Key, floatingip.FloatingIP.Policy, floatingip.FloatingIP.UpdatedAt, floatingip.FloatingIP.NodeName, floatingip.FloatingIP.PodUid, floatingip.FloatingIP.Labels, fresh floatingip.FloatingIP.IP, fresh floatingip.FloatingIP.pool, StoreDom, StoreKey, StorePolicy, StoreNode, StoreUid, faults, ProvNode, held, fresh mapsof(map[string]string), fresh floatingip.FloatingIPInfo.*, fresh nets.IPNet.*, fresh mapsof(map[string]sets.Empty), fresh elemsof(string), fresh elemsof(*floatingip.FloatingIPInfo), fresh elemsof(byte), fresh elemsof(interface{}), fresh v1.Pod.*, fresh rpc.UnAssignIPReply.*, fresh rpc.UnAssignIPRequest.*, obj.fip
+
+//@ func [C04,C01,C03,C10] (*FloatingIPPlugin).resyncAllocatedIPs
+//@   requires meta != nil && ipamOK(p) && envOK(p) && listersOK(p) && noLocksHeld() && p.podLockPool != p.dpLockPool
+//@   requires forall i int :: 0 <= i && i < len(meta.allocatedIPs) ==> meta.allocatedIPs[i].keyObj != nil && meta.allocatedIPs[i].keyObj.KeyInDB != "" && meta.allocatedIPs[i].keyObj.KeyInDB == meta.allocatedIPs[i].fip.Key
+//@   ensures ipamOK(p) && noLocksHeld()
+//@   modifies all
+//@   loop 0 invariant ipamOK(p) && envOK(p) && listersOK(p) && noLocksHeld() && p.podLockPool != p.dpLockPool
+//@   loop 0 invariant forall i int :: 0 <= i && i < len(meta.allocatedIPs) ==> meta.allocatedIPs[i].keyObj != nil && meta.allocatedIPs[i].keyObj.KeyInDB != "" && meta.allocatedIPs[i].keyObj.KeyInDB == meta.allocatedIPs[i].fip.Key
